@@ -1762,7 +1762,7 @@ def tier_c(run, thorough):
                 if kind == 'temporal':
                     c.update(n_t=n, t_desc=['list-ragged3'])
                 chk_one(orc_dataset, c, {'obs_desc': n})
-        if False:  # pending triage: range-descriptor
+        if True:   # repaired in /repo ce7a10f3 (was pending triage): range-descriptor
             # a `range` as descriptor value (the constructors keep it as it is): the HDF5 writer neither stores nor rejects it
             for target in ('path', 'bytesio'):
                 chk_one(orc_rdms, dict(n_rdm=2, n_cond=3, desc=['range'], rdm_desc=[], pat_desc=[], fmt=fmt, target=target), {})
@@ -1776,7 +1776,7 @@ def tier_c(run, thorough):
                     c = dict(kind='temporal', n_obs=n, n_ch=n, n_t=n, desc=[], obs_desc=[], ch_desc=[], t_desc=[], fmt=fmt, target='path')
                     c[where] = ['range']
                     chk_one(orc_dataset, c, {'obs_desc': n, 'ch_desc': n, 't_desc': n})
-        if False:  # pending triage: digit-string-key
+        if True:   # repaired in /repo d88b8ec7 (was pending triage): digit-string-key
             # descriptors NAMED '0', '1', ...: the HDF5 reader takes a group whose names are '0' .. 'n-1' for a stored list
             for k, ax in (('int', 'list-int'), ('str', 'list-str')):
                 chk_one(orc_rdms, dict(n_rdm=2, n_cond=3, desc=[k], rdm_desc=[ax], pat_desc=[ax], keys='digit', fmt=fmt, target='path'), {})
